@@ -13,11 +13,11 @@ def load_rule_modules():
 
 PROPS = {
     "C01": {
-        "rules": ["C01.R1", "C01.R2", "C01.R3", "C01.R4", "C01.R5", "C01.R6", "C01.R8", "C01.R9", "C03.R4", "C03.R5", "C07.R4", "C20.R2", "C18.R1", "C18.R2", "C13.R1", "C13.R2", "C13.R3", "C12.R3", "C12.R4", "C12.R7"],
+        "rules": ["C01.R1", "C01.R2", "C01.R3", "C01.R4", "C01.R5", "C01.R6", "C01.R8", "C01.R9", "C01.R10", "C03.R4", "C03.R5", "C07.R4", "C20.R2", "C18.R1", "C18.R2", "C13.R1", "C13.R2", "C13.R3", "C12.R3", "C12.R4", "C12.R7"],
         "explanation": "Decides the integrity of the up-to-date decision (each rule a necessary condition of C01): history looked up and recorded under this rule's sources hash; sources hash covers every upstream hash in receiver order; remembered vector index-aligned with the targets; AlreadyCorrect only under a full Ticket equality with the current hash of the same file; command skipped only when no target needs rebuilding; what is recorded is what was read from disk after a successful command; producer/consumer sub-index agreement; a status of Recovered only where a restore happened; the mtime shortcut is exact. Not decided: byte equality with a from-scratch build over arbitrary histories (runtime state).",
     },
     "C02": {
-        "rules": ["C02.R1", "C02.R2", "C02.R3", "C02.R4", "C02.R6", "C01.R2", "C13.R3", "C12.R3"],
+        "rules": ["C02.R1", "C02.R2", "C02.R3", "C02.R4", "C02.R6", "C01.R2", "C01.R9", "C01.R10", "C13.R3", "C12.R3"],
         "explanation": "Decides: at most one command execution per rule per build (no call site of the chain on a cycle or twice on a path); the Up-to-date path reaches no mutating System method; the command runs only on the true edge of needs-rebuild; NeedsRebuild only after the cache (and download) said NotThere; what was learned is persisted (history returned and written). Not decided: that a lookup hits on a given history.",
     },
     "C03": {
@@ -25,11 +25,11 @@ PROPS = {
         "explanation": "Decides the happens-before chain of C03 as it is visible in the code's shape: handler only on the Ok edge of the draining function; draining function returns Ok only after recv succeeded on every receiver; hashes are announced only after the handler returned Ok and are taken from its result by the sub-index stored with the sender. Not decided: correctness of the announced content, acyclicity of the runtime plan.",
     },
     "C04": {
-        "rules": ["C04.R1", "C04.R2", "C04.R3", "C04.R4", "C04.R5", "C04.R6"],
+        "rules": ["C04.R1", "C04.R2", "C04.R3", "C04.R4", "C04.R5", "C04.R6", "C08.R4"],
         "explanation": "Decides: exit status is tested (code == Some(0)) before an output is accepted; nothing is recorded for a failed execution (history written only under Ok(Ok(_)) of join, error types carry no history); cancel is forwarded on every failing path; a Cancel packet stops the dependent; one error per failed thread, none for cancelled ones; errors carry the failing path. Not decided: content correctness of independent rules (C01).",
     },
     "C05": {
-        "rules": ["C05.R1", "C03.R2", "C03.R4", "C05.R3", "C04.R3", "C05.R5"],
+        "rules": ["C05.R1", "C03.R2", "C03.R4", "C05.R3", "C04.R3", "C05.R5", "C12.R5", "C12.R6"],
         "explanation": "Decides the channel protocol that makes build/clean terminate: exactly one packet per edge per return path, receivers drained completely, all spawns before any join and every handle joined. Not decided: acyclicity of the runtime wait-for graph (sorter output).",
     },
     "C06": {
@@ -37,11 +37,11 @@ PROPS = {
         "explanation": "Non-interference argument: threads share nothing but channels and the file system (capture inventory); the only contended resource is the cache directory, on which no check-then-act may turn a lost race into a hard error; absence of a cache entry is never an error; channel results are consumed in receiver order, never arrival order. Not decided: equality of final bytes.",
     },
     "C07": {
-        "rules": ["C07.R1", "C07.R2", "C07.R3", "C07.R4", "C01.R6", "C01.R9", "C18.R1", "C18.R2"],
+        "rules": ["C07.R1", "C07.R2", "C07.R3", "C07.R4", "C01.R6", "C01.R9", "C01.R10", "C18.R1", "C18.R2"],
         "explanation": "Decides: a file enters the cache only under the hash computed from that very path with no mutation in between; one naming scheme for writer and readers; only the two renames of cache.rs write into the cache directory; (path, assumed state) pairs come from one FileInfo; hashes are refreshed after a command. Not decided: truth of remembered (hash, mtime) pairs at runtime.",
     },
     "C08": {
-        "rules": ["C08.R1", "C08.R2", "C08.R3", "C08.R4", "C07.R1"],
+        "rules": ["C08.R1", "C08.R2", "C08.R3", "C08.R4", "C07.R1", "C18.R1"],
         "explanation": "Decides: there is no deleting primitive (System trait method set, no std::fs outside real.rs); every rename destination is a content-named cache entry or a path proven vacant (backed up / found absent) on every path through all callers; every create_file targets a ruler state file or a vacant path, writes only go to created files; every non-AlreadyCorrect verdict is preceded by displacement. Not decided: preservation of actual bytes on a real file system.",
     },
     "C09": {
@@ -81,7 +81,7 @@ PROPS = {
         "explanation": "Decides: insert never overwrites (only on the miss edge of the same key) and maps Contradiction to Err; every successful re-execution passes through insert; exactly the indices whose tickets differ are reported and mapped to paths[i] of the refreshed blob; the earlier record cannot leave through an error. Not decided: whether a given history forces re-execution.",
     },
     "C18": {
-        "rules": ["C18.R1", "C18.R2", "C01.R6", "C01.R9", "C11.R2"],
+        "rules": ["C18.R1", "C18.R2", "C01.R6", "C01.R9", "C01.R10", "C11.R2"],
         "explanation": "Decides: the shortcut is taken only under exact equality of the file's own mtime with the remembered one; the table is refreshed whenever a command ran. Not decided: equality of paired runs over all histories.",
     },
     "C19": {
